@@ -174,7 +174,10 @@ impl Parser {
             let ended = self.scan.position();
             line = self.scan.line_info(ended).0;
             let comment = Rc::new(ast::Comment { pos, text });
-            self.comments.push(comment.clone());
+            // a comment scanned again after a rollback is already recorded
+            if self.comments.last().map_or(true, |last| last.pos < pos) {
+                self.comments.push(comment.clone());
+            }
             self.lead_comments.push(comment.clone());
             pos_tok = self.scan_next()?;
         }
